@@ -218,7 +218,7 @@ def base_programs(ctx):
     progs.update(EXTRA_PROGRAMS)
     rnd = ctx.rng("gen")
     for i in range(3):
-        progs[f"gen{i}"] = c19_gen.gen_contract(rnd)["src"]
+        progs[f"gen{i}"] = c19_gen.gen_contract(rnd, with_lib=False)["src"]
     return progs
 
 
@@ -363,7 +363,11 @@ def part_valid(ctx, tmp):
             items.append({"id": f"example:{rel}", "files": ex_files, "target": rel, "paths": [".", str(Path(rel).parent)],
                           "how": "example", "base": rel})
     for i in range(3 if ctx.tier == "quick" else 20):
-        items.append({"id": f"abi{i}", "src": c19_gen.gen_contract(rnd)["src"], "how": "c19_gen", "base": f"abi{i}"})
+        K = c19_gen.gen_contract(rnd)
+        if K["lib"]:
+            items.append({"id": f"abi{i}", "files": {"gen.vy": K["src"], "lib0.vy": K["lib"]}, "target": "gen.vy", "how": "c19_gen", "base": f"abi{i}"})
+        else:
+            items.append({"id": f"abi{i}", "src": K["src"], "how": "c19_gen", "base": f"abi{i}"})
     for i in range(24 if ctx.tier == "quick" else 600):
         items.append({"id": f"valid{i}", "src": c20_valid_gen.gen_program(rnd), "how": "c20_valid_gen", "base": f"valid{i}"})
     nsh = 3
